@@ -14,7 +14,7 @@ class Wrapper(Contract):
     file = 'algopy/utpm/utpm.py'
     obj = 'self'; T = None; dom = staticmethod(lambda x: [])
     cfgs = {'distinct': {}}; modifies = (); returns = 'any'
-    property_ids = ('C01', 'C14')
+    property_ids = ('C01', 'C14', 'C12')
     @property
     def objs(self): return (self.obj,)
     @property
@@ -52,7 +52,7 @@ class OpUU(Contract):
     """self (op) rhs with both operands Taylor polynomials.  cfg `same`: both operands are the same object (x op x)."""
     file = 'algopy/utpm/utpm.py'; objs = ('self', 'rhs'); arrays = ('self.data', 'rhs.data'); modifies = (); returns = 'any'
     cfgs = {'distinct': {}, 'same': {'alias': {'rhs.data': 'self.data'}}}
-    property_ids = ('C02', 'C14')
+    property_ids = ('C02', 'C14', 'C12')
     skolem_instances = False
     def requires(self, c): return []
     def value(self, c, j): raise NotImplementedError
@@ -70,7 +70,7 @@ class OpUC(Contract):
     """self (op) constant: the constant acts as a polynomial of degree zero.  cfgs: python/numpy float, int, plain ndarray."""
     file = 'algopy/utpm/utpm.py'; objs = ('self',); arrays = ('self.data',); scalars = {'rhs': 'real'}; modifies = (); returns = 'any'
     cfgs = {'float': {'rhs': 'real'}, 'int': {'rhs': 'int'}, 'ndarray': {'rhs': 'ndarray'}}
-    property_ids = ('C02', 'C14')
+    property_ids = ('C02', 'C14', 'C12')
     def cval(self, c):
         v = scalar_of(c, 'rhs'); return toR(v.t)
     def ensures(self, c):
@@ -88,7 +88,7 @@ class IOpUU(Contract):
     cfg `same`: x op= x."""
     file = 'algopy/utpm/utpm.py'; objs = ('self', 'rhs'); arrays = ('self.data', 'rhs.data'); modifies = ('self.data',); returns = 'any'
     cfgs = {'distinct': {}, 'same': {'alias': {'rhs.data': 'self.data'}}}
-    property_ids = ('C02', 'C14')
+    property_ids = ('C02', 'C14', 'C12')
     def ensures(self, c):
         x = c.pre['self.data']; y = c.pre['rhs.data']; now = c.cur('self.data')
         same = isinstance(c.ret, type(c.st.env['self'])) and c.ret is c.st.env['self']
@@ -139,7 +139,7 @@ IUU('__itruediv__', lambda x, y, j: S.QUOT(x, y, j), req=lambda c: [c.pre['rhs.d
 class Pow(Contract):
     file = 'algopy/utpm/utpm.py'; qual = 'UTPM.__pow__'; objs = ('self',); arrays = ('self.data',); scalars = {'r': 'real'}; modifies = (); returns = 'any'
     cfgs = {'real': {'r': 'real'}, 'int0': {'r': 0}, 'int1': {'r': 1}, 'int2': {'r': 2}, 'int_ge3': {'r': 'int'}, 'int_neg': {'r': 'int'}}
-    property_ids = ('C01', 'C02', 'C14')
+    property_ids = ('C01', 'C02', 'C14', 'C12')
     def cfg_assumptions(self, c, cfg):
         r = scalar_of(c, 'r')
         return [r.t >= 3] if cfg == 'int_ge3' else ([r.t < 0] if cfg == 'int_neg' else [])
